@@ -115,7 +115,6 @@ full!(params_full_small, check_params_full, 1, 2, 3, [1]);
 //@begin prop=C19 tier=thorough sha=uf mem=12 timeout=3000 desc="further length shapes"
 full!(layout_ext2, check_layout, 3, 0, 1, [2, 0]);
 full!(layout_t2, check_layout, 0, 2, 2, [1, 1]);
-full!(variants_ext2, check_variants, 3, 0, 1, [2, 0]);
 //@end
 
 //@ prop=C19 tier=quick sha=uf mem=6 timeout=900 desc="Null params have the all-zero root; compact params root == M(M(H2(script),H2(limit)), elided root) for symbolic elided root"
